@@ -3328,9 +3328,10 @@ class StateEngine(object):
         """
         force_full_lookup = "Branch" in context["State"]
         state, current_state_machine, state_path = find_state(
-            ASL["States"], current_state, force_full_lookup
+            ASL.get("States", {}), current_state, force_full_lookup
         )
-        if state == None:  # state should be valid by this point
+        # state should be valid (an object with a Type) by this point
+        if not isinstance(state, dict) or "Type" not in state:
             message = ("{} attempted a transition to a non-existent "
                        "state \"{}\": Illegal State Machine.").format(
                         execution_arn, current_state
